@@ -26,6 +26,8 @@ impl<M: MovingAverageConstructor> Envelopes<M> {
 		!self.valid() ==> r is Err,
 		r is Ok ==> r->Ok_0.inv() && r->Ok_0.cfg == self,
 		r is Ok ==> self.ma.seeded(src_val(candle, self.source), &r->Ok_0.ma),
+		// C08: for an averaging kind that cannot overshoot this is the constant state for the candle's source price (envelopes_const_step)
+		r is Ok && self.ma.convex_kind() ==> r->Ok_0.const_state(src_val(candle, self.source)),
 //@replace Ok(Self::Instance { ==> Ok(EnvelopesInstance {
 //@end
 }
@@ -81,6 +83,8 @@ impl<M: MovingAverageConstructor> KeltnerChannel<M> {
 		// documented seeds: average from the source price, ATR from high - low, previous close from the candle's close
 		r is Ok ==> self.ma.seeded(src_val(candle, self.source), &r->Ok_0.ma) && r->Ok_0.prev_close == candle.close_s()
 			&& (forall|i: int| 0 <= i < r->Ok_0.sma.window.view().len() ==> (#[trigger] r->Ok_0.sma.window.view()[i])@ == candle.high_s()@ - candle.low_s()@),
+		// C08: for an averaging kind that cannot overshoot and an ordered candle this is the constant state for that candle (keltner_const_step)
+		r is Ok && self.ma.convex_kind() && candle.low_s()@ <= candle.close_s()@ <= candle.high_s()@ ==> r->Ok_0.const_state(candle),
 //@replace Ok(Self::Instance { ==> Ok(KeltnerChannelInstance {
 //@end
 }
@@ -123,6 +127,42 @@ impl<M: MovingAverageConstructor> KeltnerChannelInstance<M> {
 		}
 	}
 //@end
+}
+
+// ---- C08 at indicator level (averaging kinds that cannot overshoot): the state `init` leaves behind for a candle is a fixed point when that candle is fed again
+impl<M: MovingAverageConstructor> EnvelopesInstance<M> {
+	pub open spec fn const_state(&self, s: real) -> bool { self.inv() && self.ma.convex() && self.ma.within(s, s) }
+}
+pub proof fn envelopes_const_step<M: MovingAverageConstructor>(pre: &EnvelopesInstance<M>, src: ValueType, post: &EnvelopesInstance<M>, v: ValueType, hi: real, lo: real)
+	requires pre.const_state(src@), post.inv(), post.cfg == pre.cfg, envelopes_step(pre, src, post, v, hi, lo)
+	ensures v@ == src@, hi == src@ * (1real + pre.cfg.k@), lo == src@ * (1real - pre.cfg.k@), post.const_state(src@)
+{
+	<M::Instance as MovingAverage>::lemma_within_step(&pre.ma, &src, &post.ma, &v, src@, src@);
+}
+impl<M: MovingAverageConstructor> KeltnerChannelInstance<M> {
+	// for an ordered candle (low <= close <= high) fed repeatedly: the average holds only the source price, the ATR window only high - low, the previous close is the candle's close
+	pub open spec fn const_state<T: OHLCV>(&self, c: &T) -> bool {
+		&&& self.inv() && self.ma.convex() && self.ma.within(src_val(c, self.cfg.source), src_val(c, self.cfg.source))
+		&&& self.prev_close == c.close_s() && c.low_s()@ <= c.close_s()@ <= c.high_s()@
+		&&& forall|i: int| 0 <= i < self.sma.window.view().len() ==> (#[trigger] self.sma.window.view()[i])@ == c.high_s()@ - c.low_s()@
+	}
+}
+pub proof fn keltner_const_step<M: MovingAverageConstructor, T: OHLCV>(pre: &KeltnerChannelInstance<M>, c: &T, src: ValueType, tr: ValueType, post: &KeltnerChannelInstance<M>, upper: real, lower: real, ma: ValueType, atr: ValueType)
+	requires pre.const_state(c), post.inv(), post.cfg == pre.cfg, post.prev_close == c.close_s(), src@ == src_val(c, pre.cfg.source),
+		tr@ == rmax(c.high_s()@, pre.prev_close@) - rmin(c.low_s()@, pre.prev_close@), keltner_step(pre, src, tr, post, upper, lower, ma, atr)
+	ensures ma@ == src@, atr@ == c.high_s()@ - c.low_s()@, upper == src@ + pre.cfg.sigma@ * (c.high_s()@ - c.low_s()@), lower == src@ - pre.cfg.sigma@ * (c.high_s()@ - c.low_s()@),
+		post.const_state(c)
+{
+	<M::Instance as MovingAverage>::lemma_within_step(&pre.ma, &src, &post.ma, &ma, src@, src@);
+	let d = c.high_s()@ - c.low_s()@;
+	assert(tr@ == d);
+	let v = post.sma.window.view();
+	assert forall|i: int| 0 <= i < v.len() implies (#[trigger] v[i])@ == d by {
+		if i < v.len() - 1 { assert(v[i] == pre.sma.window.view()[i + 1]); }
+	}
+	lemma_sum_all_eq(v, d);
+	let n = v.len() as real;
+	assert((n * d) / n == d) by(nonlinear_arith) requires n >= 1real;
 }
 pub proof fn lemma_sum_nonneg(s: Seq<R>)
 	requires forall|i: int| 0 <= i < s.len() ==> (#[trigger] s[i])@ >= 0real
